@@ -457,3 +457,80 @@ def engine_data_attacks(sm):
                 out.append((b[:f.off] + body + b[f.off + n:], f"enginedata-{nm}@{f.off}/{n}"))
             break
     return out
+
+
+# ------------------------------------------------------------------------------------------------ payload interiors
+# Payloads with a tokenizer / parser of their own (text engine data, XMP, ICC, paths, strings ...) are reached only when
+# every enclosing length field stays consistent: same-length overwrites of a window or of the tail of the payload.
+FILLERS = (("backslashes", b"\\"), ("open-parens", b"("), ("close-parens", b")"), ("open-dicts", b"<<"),
+           ("close-dicts", b">>"), ("open-lists", b"["), ("close-lists", b"]"), ("nul", b"\0"), ("ff", b"\xff"),
+           ("slashes", b"/"), ("lt", b"<"), ("spaces", b" "), ("newlines", b"\n"), ("digits", b"1"), ("minus", b"-"),
+           ("dots", b"."), ("escaped-parens", b"\\)"), ("escapes", b"(\\"), ("names", b"/a "), ("nested", b"<< /a "),
+           ("bom-strings", b"(\xfe\xff"), ("e-notation", b"1e"), ("quotes", b'"'), ("amp", b"&#"))
+TOKEN_STARTS = ((b"(\xfe\xff", "utf16-string"), (b"(", "string"), (b"<<", "dict"), (b"[", "list"), (b"/", "name"),
+                (b"<", "tag"), (b'"', "quote"), (b"\\", "escape"))
+PREFIXES = ((b"", "none"), (b"(\xfe\xff", "utf16-string"), (b"(", "string"), (b"<<", "dict"), (b"[", "list"),
+            (b"<< /a (\xfe\xff", "dict-utf16-string"), (b"\n\n<<\n\t/a ", "engine-head"), (b"<?xml ", "xml"), (b"/a ", "name"))
+
+
+def _fill(unit, n):
+    return (unit * (n // len(unit) + 1))[:n]
+
+
+def payload_attacks(b, off, n, rng, n_random=24, full=False):
+    """same-length mutants of the payload b[off:off+n] -> [(bytes, why)].
+    Deterministic part: behind the first / last occurrence of every token start that the payload itself contains, the
+    rest of the payload is overwritten with each filler (the bytes in front stay valid, so the payload's own parser is
+    in the middle of a token of that kind when the filler begins).  Random part (rng): anchor x injected prefix x filler
+    x window length."""
+    P = b[off:off + n]
+    out = []
+    seen = set()
+
+    def emit(a, new, why):
+        new = new[:n - a]
+        if not new or P[a:a + len(new)] == new:
+            return
+        key = (a, new[:64], len(new))
+        if key in seen:
+            return
+        seen.add(key)
+        out.append((b[:off + a] + new + b[off + a + len(new):], why))
+
+    anchors = []
+    for tok, tn in TOKEN_STARTS:
+        i, j = P.find(tok), P.rfind(tok)
+        for pos, which in ((i, "first"), (j, "last")):
+            if pos >= 0 and pos + len(tok) < n:
+                anchors.append((pos + len(tok), f"{which}-{tn}"))
+    if not full:
+        # quick tier: the token kinds that occur, first and last occurrence, at most 8 anchors
+        anchors = anchors[:8]
+    for a, an in anchors:
+        for fn, unit in FILLERS:
+            emit(a, _fill(unit, n - a), f"tail:{fn}@{an}+{a}/{n}")
+    plain = [(0, "start"), (n // 2, "middle"), (max(0, n - 64), "last64"), (max(0, n - 1024), "last1024")]
+    for a, an in plain:
+        for fn, unit in FILLERS[:9] if not full else FILLERS:
+            emit(a, _fill(unit, n - a), f"tail:{fn}@{an}+{a}/{n}")
+    for _ in range(n_random):
+        a = rng.choice([0, rng.randrange(n), rng.randrange(n), max(0, n - rng.choice([16, 64, 256, 4096]))])
+        pre, pn = rng.choice(PREFIXES)
+        fn, unit = rng.choice(FILLERS)
+        ln = rng.choice([n, n, 16, 64, 256, 1024, 4096])
+        emit(a, pre + _fill(unit, max(0, min(ln, n - a) - len(pre))), f"window:{pn}+{fn}@{a}+{min(ln, n - a)}/{n}")
+    return out
+
+
+def index_opaque(path):
+    """(name, size, [(feature, off, n, label)]) opaque payloads of one fixture (runs in a helper process)"""
+    import logging
+    logging.disable(logging.CRITICAL)
+    try:
+        b = path.read_bytes()
+        res, sm = lc.trace_parse(b)
+        if res[0] != "ok":
+            return path.name, len(b), []
+        return path.name, len(b), [(repr((f.site, f.ctx)), f.off, f.got, f.label) for f in sm.opaque if f.got >= 24]
+    except Exception:  # noqa
+        return path.name, 0, []
